@@ -202,7 +202,7 @@ def check(case, log):
       stid = "%s/%d" % (tid, _outstanding_pc(ix, tid))
       sret = (cur.get("sub") or {}).get("ret", "end")
       sen = ix.ends.get(stid)
-      if sen is not None and exc == "SubError" and sret != "end" and "raise" in sret:
+      if sen is not None and sen[3] in ("raise", "uncaught"):
         fail("subtask-exception-not-delivered", "%s is a Task(target=...) and called sub-task %s, which raised; the exception was "
              "thrown at the Task.run wrapper and killed the task instead of being raised at the target's `yield`: %s" % (tid, stid, text),
              form="target")
@@ -400,6 +400,8 @@ def check(case, log):
     # an exception that a caller does not catch travels on to that caller's caller
     while "/" in want_who[-1] and ix.ends.get(want_who[-1], (0, 0, 0, None))[3] == "uncaught":
       want_who.append(want_who[-1].rsplit("/", 1)[0])
+    want_who = [w for w in want_who if not is_poisoned(w)]
+    who = [w for w in who if not is_poisoned(w)]
     if sorted(who) != sorted(want_who):
       fail("subtask-result-misdelivered", "the result of %s was received by %r instead of exactly once by %r" % (stid, who, want_who))
   # every byte handed out by a socket reached a Recv step
